@@ -32,7 +32,7 @@ TARGETS = ['valjean.eponine.apollo3.hdf5_reader:Reader.read_file', 'valjean.epon
 SRC = '/repo/tests/eponine/tripoli4/data/gauss_E_time_mu_phi.res.ceav5'
 BOUNDS = {'quick': {'responses per listing': 2, 'energy groups': '1-3', 'second dimension': 'none, time steps (1-3) or mu zones (1-3)',
                     'printing order': 'increasing or decreasing, independently per dimension', 'scores': 'distinct positive tags, one solver-chosen cell zero or negative'},
-          'thorough': {'responses per listing': 3, 'energy groups': '1-4', 'second dimension': 'none, time (1-3), mu (1-3), time x mu (2x2)',
+          'thorough': {'responses per listing': '1 (1-4 energy groups) or 2 (1 energy group)', 'energy groups': '1-4', 'second dimension': 'none, time (1-3), mu (1-3), time x mu (2x2)',
                        'printing order': 'all combinations'}}
 ASSUMPTIONS = ['listings are synthesised from the layout of the shipped example gauss_E_time_mu_phi.res.ceav5 (header, edition framing, response '
                'blocks); only spectrum responses in E, E x t, E x mu (and E x t x mu) are generated',
@@ -311,7 +311,7 @@ def jobs(tier):
                [('mixed-r2', _job, dict(nresp=2, max_e=1, seconds=['none', 'time'], timeout_ms=t)),
                 ('apollo3', _job_apollo, dict(timeout_ms=t))]
     return [(f'{s}-r1', _job, dict(nresp=1, max_e=4, seconds=[s], timeout_ms=t)) for s in ('none', 'time', 'mu')] + \
-           [('mixed-r2', _job, dict(nresp=2, max_e=2, seconds=['none', 'time', 'mu'], timeout_ms=t)),
+           [('mixed-r2', _job, dict(nresp=2, max_e=1, seconds=['none', 'time', 'mu'], timeout_ms=t)),
             ('apollo3', _job_apollo, dict(timeout_ms=t))]
 
 
